@@ -4,8 +4,8 @@ C11: the statements (`ViewOk`, `Mono`, `Quiescent`), the hypothesis of the parti
 boolean checkers used by the counterexample theorems.
 -/
 import CV.Proofs.StreamResume
-import CV.Proofs.StreamGuard
-import CV.Proofs.StreamFaithReg
+import CV.Proofs.StreamGuardResume
+import CV.Proofs.StreamFaithNode
 namespace CV.Stream
 
 /-! ## Statements -/
@@ -13,7 +13,12 @@ namespace CV.Stream
 /-- every materializer that has been updated holds exactly the direct-query result that belongs
     to its last update (`expect` is the ghost copy of `query key <catalog right after the commit
     the delivered event belongs to>`, resp. of the query the snapshot was built from) -/
-def ViewOk (y : Sys) : Prop := ∀ c ∈ y.clients, c.m.index ≠ 0 → ViewEq c.m.view c.m.expect
+def ViewOk (y : Sys) : Prop :=
+  ∀ c ∈ y.clients, c.m.index ≠ 0 → IsFilterOf c.authz c.key c.m.view c.m.expect
+
+/-- the same for subscribers whose token may read everything, as plain view equality (used by the
+    index-guard theorems, which are stated for unfiltered consumers) -/
+def ViewOkU (y : Sys) : Prop := ∀ c ∈ y.clients, c.m.index ≠ 0 → ViewEq c.m.view c.m.expect
 
 /-- delivered indexes of every subscription never decreased -/
 def Mono (y : Sys) : Prop := ∀ c ∈ y.clients, c.mono = true
@@ -37,12 +42,13 @@ instance (y : Sys) (id : Nat) : Decidable (Unfiltered y id) := by
     * a subscription starts while nothing is queued for publication (it may be resumed, served
       from the snapshot cache, or take a fresh snapshot that splices at the live tail),
     * a restore happens while nothing is queued and no subscription is attached,
-    * the consuming subscriber is `Unfiltered`. -/
+    * a subscriber's token is `AuthzOk` for its key (on the Connect topic visibility must not
+      depend on the sidecar's own name: no service-subset token there). -/
 def CleanAct (y : Sys) : Act → Prop
   | .commit idx w => y.lastIdx < idx ∧ Faithful y.cat idx w
   | .subscribe id => CleanSubR y id
   | .restore c => WF c ∧ IdxBound c y.lastIdx ∧ y.queue = [] ∧ ∀ d ∈ y.clients, attached d = false
-  | .next id => Unfiltered y id
+  | .client _ k _ _ a => AuthzOk a k
   | _ => True
 
 def CleanRun (y : Sys) : List Act → Prop
@@ -61,12 +67,12 @@ theorem AllInv.init (ttl : Bool) : AllInv (Sys.init ttl) :=
 theorem AllInv.step {y : Sys} (h : AllInv y) (a : Act) (hc : CleanAct y a) : AllInv (step y a) := by
   obtain ⟨hi, hm, pc, hr⟩ := h
   cases a with
-  | client id k t r a => exact ⟨hi.addClient id k t r a, hm.addClient id k t r a, pc, hr.addClient id k t r a⟩
+  | client id k t r a => exact ⟨hi.addClient id k t r a hc, hm.addClient id k t r a, pc, hr.addClient id k t r a⟩
   | commit idx w =>
     exact ⟨hi.commit idx w (by have := hc.1; omega) hc.2, hm.commit idx w hc.1, pc, hr.commit idx w hc.1 hc.2⟩
   | publishOne => exact ⟨hi.publishOne, hm.publishOne hi.cbuf, hr.publishOne⟩
   | subscribe id => exact ⟨hi.subscribeR hr id hc, hm.subscribeR id hc, pc, hr.subscribeR hi hm id hc⟩
-  | next id => exact ⟨hi.next id hc, hm.next id hc, pc, hr.next hi id hc⟩
+  | next id => exact ⟨hi.next id, hm.next id, pc, hr.next hi id⟩
   | unsub id => exact ⟨hi.unsub id, hm.unsub id, pc, hr.unsub hi id⟩
   | expire => exact ⟨hi.expire, hm.expire, pc, hr.expire⟩
   | restore c =>
@@ -92,11 +98,10 @@ instance (y : Sys) (id : Nat) : Decidable (NoResume y id) := by
 /-! ## The variant with the index guard in the materializer -/
 
 /-- hypothesis of `view_ok_with_index_guard`: commits are well-indexed, faithful and move the
-    query index soundly; subscriptions may start at ANY moment (also between a commit and its
-    publication) but not through the resume path; no restore -/
+    query index soundly; subscriptions — fresh, cached or RESUMED — may start at ANY moment (also
+    between a commit and its publication); no restore; consumers are unfiltered -/
 def GuardAct (y : Sys) : Act → Prop
   | .commit idx w => y.lastIdx < idx ∧ Faithful y.cat idx w ∧ IndexSound y.cat idx w
-  | .subscribe id => NoResume y id
   | .restore _ => False
   | .next id => Unfiltered y id
   | _ => True
@@ -105,18 +110,26 @@ def GuardRun (y : Sys) : List Act → Prop
   | [] => True
   | a :: r => GuardAct y a ∧ GuardRun (stepG y a) r
 
-theorem InvG.stepG {y : Sys} (h : InvG y) (a : Act) (hc : GuardAct y a) : InvG (stepG y a) := by
+/-- the two invariants of the index-guard system, stepped together -/
+structure AllG (y : Sys) : Prop where
+  inv : InvG y
+  rg  : ∃ pc, RG y pc
+
+theorem AllG.init (ttl : Bool) : AllG (Sys.init ttl) := ⟨InvG.init ttl, ⟨Cat.empty, RG.init ttl⟩⟩
+
+theorem AllG.stepG {y : Sys} (h : AllG y) (a : Act) (hc : GuardAct y a) : AllG (stepG y a) := by
+  obtain ⟨hi, pc, hr⟩ := h
   cases a with
-  | client id k t r a => exact h.addClient id k t r a
-  | commit idx w => exact h.commit idx w hc.1 hc.2.1 hc.2.2
-  | publishOne => exact h.publishOne
-  | subscribe id => exact h.subscribe id hc
-  | next id => exact h.nextG id hc
-  | unsub id => exact h.unsub id
-  | expire => exact h.expire
+  | client id k t r a => exact ⟨hi.addClient id k t r a, pc, hr.addClient id k t r a⟩
+  | commit idx w => exact ⟨hi.commit idx w hc.1 hc.2.1 hc.2.2, pc, hr.commit idx w hc.1 hc.2.1⟩
+  | publishOne => exact ⟨hi.publishOne, hr.publishOne⟩
+  | subscribe id => exact ⟨hi.subscribeAny hr id, pc, hr.subscribe hi id⟩
+  | next id => exact ⟨hi.nextG id hc, pc, hr.nextG hi id hc⟩
+  | unsub id => exact ⟨hi.unsub id, pc, hr.unsub hi id⟩
+  | expire => exact ⟨hi.expire, pc, hr.expire⟩
   | restore c => exact absurd hc id
 
-theorem InvG.runG {y : Sys} (h : InvG y) (acts : List Act) (hc : GuardRun y acts) : InvG (runG y acts) := by
+theorem AllG.runG {y : Sys} (h : AllG y) (acts : List Act) (hc : GuardRun y acts) : AllG (runG y acts) := by
   induction acts generalizing y with
   | nil => exact h
   | cons a r ih => exact ih (h.stepG a hc.1) hc.2
@@ -166,7 +179,18 @@ theorem viewEqB_of_viewEq {a b : View} (h : ViewEq a b) : viewEqB a b = true := 
   intro p _
   simp [h p.1]
 
-def viewOkB (y : Sys) : Bool := y.clients.all fun c => decide (c.m.index = 0) || viewEqB c.m.view c.m.expect
+/-- boolean check of `IsFilterOf` on the ids that occur -/
+def filterOfB (a : Authz) (k : Key) (vf vu : View) : Bool :=
+  (vf ++ vu).all fun p => lookup? p.1 vf == (if visF a k p.1 then lookup? p.1 vu else none)
+
+theorem filterOfB_of {a : Authz} {k : Key} {vf vu : View} (h : IsFilterOf a k vf vu) : filterOfB a k vf vu = true := by
+  unfold filterOfB
+  rw [List.all_eq_true]
+  intro p _
+  simp [h p.1]
+
+def viewOkB (y : Sys) : Bool :=
+  y.clients.all fun c => decide (c.m.index = 0) || filterOfB c.authz c.key c.m.view c.m.expect
 
 theorem viewOkB_of_viewOk {y : Sys} (h : ViewOk y) : viewOkB y = true := by
   unfold viewOkB
@@ -174,7 +198,7 @@ theorem viewOkB_of_viewOk {y : Sys} (h : ViewOk y) : viewOkB y = true := by
   intro c hc
   by_cases hi : c.m.index = 0
   · simp [hi]
-  · simp [hi, viewEqB_of_viewEq (h c hc hi)]
+  · simp [hi, filterOfB_of (h c hc hi)]
 
 def monoB (y : Sys) : Bool := y.clients.all (·.mono)
 
@@ -184,11 +208,12 @@ theorem monoB_of_mono {y : Sys} (h : Mono y) : monoB y = true := by
 /-- "no committed change is skipped", observed at quiescence -/
 def Quiescent (y : Sys) : Prop :=
   y.queue = [] → ∀ c ∈ y.clients, c.sub = .opened → c.inbox = [] → c.m.index ≠ 0 →
-    ViewEq c.m.view (query c.key y.cat)
+    IsFilterOf c.authz c.key c.m.view (query c.key y.cat)
 
 def quiescentB (y : Sys) : Bool :=
   !y.queue.isEmpty || y.clients.all fun c =>
-    !(decide (c.sub = .opened) && c.inbox.isEmpty && decide (c.m.index ≠ 0)) || viewEqB c.m.view (query c.key y.cat)
+    !(decide (c.sub = .opened) && c.inbox.isEmpty && decide (c.m.index ≠ 0)) ||
+      filterOfB c.authz c.key c.m.view (query c.key y.cat)
 
 theorem quiescentB_of_quiescent {y : Sys} (h : Quiescent y) : quiescentB y = true := by
   unfold quiescentB
@@ -197,7 +222,7 @@ theorem quiescentB_of_quiescent {y : Sys} (h : Quiescent y) : quiescentB y = tru
     rw [List.all_eq_true]
     intro c hc
     by_cases hp : c.sub = .opened ∧ c.inbox = [] ∧ c.m.index ≠ 0
-    · have := viewEqB_of_viewEq (h hq c hc hp.1 hp.2.1 hp.2.2)
+    · have := filterOfB_of (h hq c hc hp.1 hp.2.1 hp.2.2)
       simp [this]
     · have : (decide (c.sub = .opened) && c.inbox.isEmpty && decide (c.m.index ≠ 0)) = false := by
         rw [Bool.eq_false_iff]
